@@ -92,6 +92,50 @@ pub fn gen_plan(seed: u64, run: u64, tier: &str) -> Plan {
             }
         }
     }
+    // crowded neighbourhood in a share of runs: many superseded versions of one document sit right next to a pooled
+    // query (so the cold tier's over-fetch, sized from the index-wide ratio, can be used up by tombstones) while a
+    // freshly acknowledged document is the nearest live one; part of the time that document is re-written with the
+    // very same vector (a metadata-only upsert)
+    let mut last_vec: BTreeMap<u64, Vec<u32>> = BTreeMap::new();
+    if !heavy && rng.chance(1, 6) {
+        let q = gen_query(&mut rng, cfg.dim, &mut pool, &mut salt);
+        let base = unbits(&q);
+        let near = |eps: f32| -> Vec<u32> { bits(&base.iter().enumerate().map(|(i, x)| x + if i % 2 == 0 { eps } else { -eps }).collect::<Vec<f32>>()) };
+        for id in 2..universe {
+            w += 1;
+            steps.push(Step::Api(ApiOp::Insert { id, vec: bits(&gen_vector(&mut rng, cfg.dim, w)), meta: gen_meta(&mut rng, w) }));
+        }
+        if universe > 2 && rng.chance(1, 2) {
+            steps.push(Step::Api(ApiOp::Flush { force: true }));
+        }
+        let victim_vec = near(*rng.pick(&[0.02f32, 0.05, 0.1]));
+        w += 1;
+        steps.push(Step::Api(ApiOp::Insert { id: 0, vec: victim_vec.clone(), meta: gen_meta(&mut rng, w) }));
+        last_vec.insert(0, victim_vec.clone());
+        for _ in 0..rng.range(3, 14) {
+            w += 1;
+            steps.push(Step::Api(ApiOp::Insert { id: 1, vec: near(*rng.pick(&[0.0f32, 1e-3, 0.01])), meta: gen_meta(&mut rng, w) }));
+        }
+        if rng.chance(1, 2) {
+            steps.push(Step::Api(ApiOp::Delete { id: 1 }));
+        } else {
+            w += 1;
+            steps.push(Step::Api(ApiOp::Insert { id: 1, vec: bits(&gen_vector(&mut rng, cfg.dim, w)), meta: gen_meta(&mut rng, w) }));
+        }
+        if rng.chance(1, 3) {
+            steps.push(Step::Api(ApiOp::Flush { force: true }));
+        }
+        if rng.chance(2, 3) {
+            w += 1;
+            steps.push(Step::Api(ApiOp::Insert { id: 0, vec: victim_vec, meta: gen_meta(&mut rng, w) }));
+        }
+        let api = match rng.below(4) {
+            0 => SearchApi::Batch,
+            1 => SearchApi::WithEf(*rng.pick(&[1usize, 10, 200])),
+            _ => SearchApi::Single,
+        };
+        steps.push(Step::Search { q, k: *rng.pick(&[1usize, 1, 2]), scope: 0, api });
+    }
     for _ in 0..n {
         let r = rng.below(100);
         if r < 45 {
@@ -111,13 +155,17 @@ pub fn gen_plan(seed: u64, run: u64, tier: &str) -> Plan {
                 0..=49 => {
                     w += 1;
                     // a share of writes lands close to a pooled query (near the cache's pruning bound)
-                    let v = if !pool.is_empty() && rng.chance(1, 3) {
+                    let v: Vec<f32> = if last_vec.contains_key(&id) && rng.chance(1, 6) {
+                        // the same vector again: only the metadata changes
+                        unbits(&last_vec[&id])
+                    } else if !pool.is_empty() && rng.chance(1, 3) {
                         let base = unbits(&pool[rng.below(pool.len() as u64) as usize]);
                         let eps = *rng.pick(&[0.0f32, 1e-3, 0.05, 0.3]);
                         base.iter().enumerate().map(|(i, x)| x + if i % 2 == 0 { eps } else { -eps }).collect()
                     } else {
                         gen_vector(&mut rng, cfg.dim, w)
                     };
+                    last_vec.insert(id, bits(&v));
                     ApiOp::Insert { id, vec: bits(&v), meta: gen_meta(&mut rng, w) }
                 }
                 50..=64 => ApiOp::Delete { id },
@@ -303,6 +351,8 @@ fn execute_inner(plan: &Plan) -> Exec {
             }
             Step::Search { q, k: kk, scope, api } => {
                 let qf = unbits(q);
+                // residency in the recent-write tier is read BEFORE the search (a search may discard mirror entries)
+                let resident_before: BTreeSet<u64> = recent.iter().copied().filter(|id| b.engine.hot_tier().exists(*id)).collect();
                 // responses: (results, path, label)
                 let mut responses: Vec<(Vec<(u64, f32)>, Option<SearchExecutionPath>, Vec<f32>)> = Vec::new();
                 let mut failed = None;
@@ -442,7 +492,7 @@ fn execute_inner(plan: &Plan) -> Exec {
                     if path.is_some() && !degraded && !timed {
                         let kth = if res.len() >= *kk { res.last().map(|x| x.1 as f64) } else { None };
                         for id in &recent {
-                            if uniq.contains(id) || !b.engine.hot_tier().exists(*id) {
+                            if uniq.contains(id) || !resident_before.contains(id) {
                                 continue;
                             }
                             let Some((v, _)) = model.get(id) else { continue };
